@@ -1,6 +1,6 @@
 ------------------------- MODULE ResourcePack_Trace -------------------------
 (* Judges what the real resource-pack handlers did, call by call.  Lines:
-     {"ev":"reset","mode":"legacy"|"legacy117"|"modern"}      a fresh handler
+     {"ev":"reset","ver":<client protocol>}      a fresh handler for that client; its kind is ModeOf(ver)
      {"ev":"op","op":"queue"|"response"|"remove"|"clear","pack":name,"sid":id,"st":status,
       "returned":bool,     the call came back before the watchdog fired (confirmed by a re-run)
       "panicked":bool,     the call ended in a panic
@@ -11,13 +11,13 @@
 EXTENDS ResourcePack, TraceLib
 
 unused == <<prev, open, nAuto, last, h>>      \* the reference machine's own variables
-tv == <<q, qm, decl, mode, l, unused>>
+tv == <<ver, q, qm, decl, mode, l, unused>>
 
-TInit == CursorInit /\ q = <<>> /\ qm = [i \in Ids |-> <<>>] /\ decl = FALSE /\ mode = "legacy"
+TInit == CursorInit /\ q = <<>> /\ qm = [i \in Ids |-> <<>>] /\ decl = FALSE /\ mode = "legacy" /\ ver = 0
          /\ prev = "none" /\ open = 0 /\ nAuto = 0 /\ last = 0 /\ h = <<>>
 
 TReset == /\ IsEv("reset")
-          /\ q' = <<>> /\ qm' = [i \in Ids |-> <<>>] /\ decl' = FALSE /\ mode' = Rec.mode /\ UNCHANGED unused
+          /\ q' = <<>> /\ qm' = [i \in Ids |-> <<>>] /\ decl' = FALSE /\ ver' = Rec.ver /\ mode' = ModeOf(Rec.ver) /\ UNCHANGED unused
 
 Op(r) == [op |-> r.op, pack |-> r.pack, sid |-> r.sid, st |-> r.st]
 Out(r) == [prompts |-> r.prompts, reports |-> r.reports, handled |-> r.handled]
@@ -28,7 +28,7 @@ NextQueues(r) == {q, Append(q, r.pack)} \cup {SubSeq(q, k, Len(q)) : k \in 1..(L
 
 TOp == /\ IsEv("op")
        /\ Rec.returned /\ ~Rec.panicked
-       /\ mode' = mode /\ UNCHANGED unused
+       /\ mode' = mode /\ ver' = ver /\ UNCHANGED unused
        /\ IF mode = "modern"
             THEN /\ \E qm2 \in {qm, [i \in Ids |-> <<>>]} \cup UNION {
                                   {[qm EXCEPT ![i] = s] : s \in {<<>>, Append(qm[i], Rec.pack)} \cup
